@@ -21,6 +21,19 @@ def per_entry_loop(repo):
             for s in x.body:
                 if isinstance(s, ast.Assign) and isinstance(s.value, ast.Call) and (dotted(s.value.func) or "").split(".")[-1] == "Platform":
                     loops.append((x, s))
+    if not loops:
+        # the per-entry body was extracted into a helper: the loop is the one that calls the helper constructing the Platform
+        for h in find.new_helpers():
+            ctors = [s for s in walk_no_nested(h.node) if isinstance(s, ast.Assign) and isinstance(s.value, ast.Call) and (dotted(s.value.func) or "").split(".")[-1] == "Platform"]
+            rets = [s for s in walk_no_nested(h.node) if isinstance(s, ast.Return) and isinstance(s.value, ast.Call) and (dotted(s.value.func) or "").split(".")[-1] == "Platform"]
+            if not ctors and not rets:
+                continue
+            for x in walk_no_nested(find.node):
+                if isinstance(x, ast.For):
+                    for s in x.body:
+                        for c in ast.walk(s):
+                            if isinstance(c, ast.Call) and (dotted(c.func) or "").split(".")[-1] == h.name and isinstance(s, (ast.Assign, ast.Expr)):
+                                loops.append((x, s if isinstance(s, ast.Assign) else (ctors or rets)[0]))
     if len(loops) != 1:
         raise AnalysisError("finder.find: expected exactly one loop that constructs a Platform per database entry")
     return find, loops[0][0], loops[0][1]
